@@ -267,7 +267,24 @@ func TestVerifCrash(t *testing.T) {
 		next := 0
 		failed := false
 		attsOf := map[int][]int{} // key -> attempt indices, oldest first
+		// main directories: after the long cycles a run of short "burst" cycles - few stores, a kill, straight on to the next
+		// incarnation, a read-back every fourth - so that many more kill points fall inside individual store calls (a store that
+		// is not atomic loses or mixes a value only when the kill lands between its steps)
+		bursts := 0
+		if !soak {
+			bursts = 16
+			if tier == "thorough" {
+				bursts = 60
+			}
+		}
+		longCycles, longQuota := cycles, quota
+		cycles += bursts
 		for c := 1; c <= cycles && !failed; c++ {
+			quota := longQuota
+			burst := c > longCycles
+			if burst {
+				quota = 60 + r.Intn(60)
+			}
 			base := []string{"VERIF_CRASH_DIR=" + dir, "VERIF_CRASH_SEED=" + strconv.FormatInt(sseed, 10), "VERIF_CRASH_NKEYS=" + strconv.Itoa(nkeys), "VERIF_TIER=" + tier}
 			// ---- store child, killed mid-stream
 			killAfter := r.Intn(quota)
@@ -398,7 +415,10 @@ func TestVerifCrash(t *testing.T) {
 			if soak && c%8 != 0 && c != cycles {
 				continue // soak directory: read back only now and then
 			}
-			if !soak && c%2 == 0 {
+			if burst && c%4 != 0 && c != cycles {
+				continue // burst cycles: read back every fourth
+			}
+			if !soak && !burst && c%2 == 0 {
 				// main directories: the write-ahead file the killed store child left behind holds up to a thousand acknowledged
 				// entries; the flush of that much outlasts Open, so this second kill lands inside it. Read back right after.
 				openKill()
